@@ -92,7 +92,14 @@ func (a *Allocation) GetPermission(addr net.Addr) *Permission {
 	a.permissionsLock.RLock()
 	defer a.permissionsLock.RUnlock()
 
-	return a.permissions[ipnet.FingerprintAddr(addr)]
+	perm := a.permissions[ipnet.FingerprintAddr(addr)]
+	if perm != nil && !time.Now().Before(perm.expiresAt) {
+		// Run out: its removal is on its way (it may be waiting for the lock
+		// behind a slow callback) and it authorizes nothing any more.
+		return nil
+	}
+
+	return perm
 }
 
 // AddPermission adds a new permission to the allocation.
@@ -321,7 +328,7 @@ func (a *Allocation) GetChannelByNumber(number proto.ChannelNumber) *ChannelBind
 	a.channelBindingsLock.RLock()
 	defer a.channelBindingsLock.RUnlock()
 	for _, cb := range a.channelBindings {
-		if cb.Number == number {
+		if cb.Number == number && time.Now().Before(cb.expiresAt) {
 			return cb
 		}
 	}
@@ -334,7 +341,7 @@ func (a *Allocation) GetChannelByAddr(addr net.Addr) *ChannelBind {
 	a.channelBindingsLock.RLock()
 	defer a.channelBindingsLock.RUnlock()
 	for _, cb := range a.channelBindings {
-		if ipnet.AddrEqual(cb.Peer, addr) {
+		if ipnet.AddrEqual(cb.Peer, addr) && time.Now().Before(cb.expiresAt) {
 			return cb
 		}
 	}
